@@ -96,6 +96,7 @@ pub fn configs(tier: Tier, judge: u32, liveness: bool) -> Vec<OutCfg> {
                             peer_max_packet: 0,
                             inbound: 0,
                             may_close: false,
+                            inbound_faults: false,
                         });
                     }
                 }
@@ -117,6 +118,7 @@ pub fn configs(tier: Tier, judge: u32, liveness: bool) -> Vec<OutCfg> {
                     peer_max_packet: 0,
                     inbound: 0,
                     may_close: false,
+                    inbound_faults: false,
                 });
             }
         }
@@ -135,6 +137,7 @@ pub fn configs(tier: Tier, judge: u32, liveness: bool) -> Vec<OutCfg> {
                 peer_max_packet: 0,
                 inbound: 0,
                 may_close: false,
+                inbound_faults: false,
             });
         }
         // streamed QoS 1 publishes occupy a window slot like any other publish
@@ -152,6 +155,7 @@ pub fn configs(tier: Tier, judge: u32, liveness: bool) -> Vec<OutCfg> {
                 peer_max_packet: 0,
                 inbound: 0,
                 may_close: false,
+                inbound_faults: false,
             });
         }
         // a sender that is woken but then fails locally (over-size packet) does not occupy the slot it was
@@ -178,6 +182,7 @@ pub fn configs(tier: Tier, judge: u32, liveness: bool) -> Vec<OutCfg> {
                     peer_max_packet: 100,
                     inbound: 0,
                     may_close: false,
+                    inbound_faults: false,
                 });
             }
         }
